@@ -114,6 +114,18 @@ func runCloserRulesF(c *Ctx, rule string, entries []closerEntry, keep func(what 
 		g.consume[e.key] = m
 	}
 	g.base = NewBase(Hooks{Call: g.call, Assign: g.assign, Return: g.ret, Exit: g.exit, Stmt: g.stmt})
+	// a resource whose variable is found to be nil does not exist on that path;
+	// remember it at the test (loop-scoped variables are forgotten per iteration)
+	g.base.H.PostCond = func(x *Exec, cond ast.Expr, truth bool, outs []St) []St {
+		for i := range outs {
+			for k, id := range outs[i].m {
+				if strings.HasPrefix(k, "rc:") && outs[i].Get("r:"+id) == "open" && outs[i].Get("n:"+k[3:]) == "nil" {
+					outs[i] = outs[i].Set("r:"+id, "absent")
+				}
+			}
+		}
+		return outs
+	}
 	nf := 0
 	for _, e := range entries {
 		fi := c.P.Func(e.key)
